@@ -3,8 +3,9 @@ EXTENDS ZStorage
 \* oid 1 is of a class with _p_resolveConflict, the others are plain
 MCCls == [o \in Oids |-> IF o = 1 THEN "merge" ELSE "plain"]
 MCClsPlain == [o \in Oids |-> "plain"]
-MCClsMix == [o \in Oids |-> CASE o % 5 = 0 -> "plain" [] o % 5 = 1 -> "merge" [] o % 5 = 2 -> "mergefail"
-                                  [] o % 5 = 3 -> "broken" [] OTHER -> "mergeconflict"]
+\* (a class with constructor arguments whose state shares objects with the class part resolves like "merge")
+MCClsMix == [o \in Oids |-> CASE o % 6 = 0 -> "plain" [] o % 6 = 1 -> "merge" [] o % 6 = 2 -> "mergefail"
+                                  [] o % 6 = 3 -> "broken" [] o % 6 = 4 -> "mergeconflict" [] OTHER -> "merge"]
 NoRefs == {{}}
 FewRefs == {{}, {1} \cap Oids, {0, 2} \cap Oids}
 AllRefs == SUBSET Oids
